@@ -12,7 +12,7 @@ from ref import jwe as rjwe
 LEVEL = "exploration"
 RULE = ("Hypothesis draws an encryption plan (21 alg values x 8 enc values x zip absent/DEF x EC P-256/P-384/P-521/secp256k1 and "
         "X25519/X448 x compact/flattened/general with 1-4 recipients of mixed algorithms x AAD x apu/apv x alg placement in "
-        "protected/unprotected/per-recipient header x several recipients without a header of their own x role-specific key_ops/use on the two sides x plaintext class) x key hand-over (attached, key set, callable) x key import "
+        "protected/unprotected/per-recipient header x several recipients without a header of their own x role-specific key_ops/use on the two sides x plaintext class (with zip=DEF also random / zero / text plaintexts 0-200 octets below the 256000 limit)) x key hand-over (attached, key set, callable) x key import "
         "form; joserfc encrypts and decrypts (all recipients via key set, and each single recipient with any-recipient validation); "
         "oracle: exact plaintext octets and header members in their positions (extras only from kid/epk/iv/tag/p2s/p2c/skid). "
         "Forbidden combinations (direct mode with several recipients, ECDH-1PU+KW with non-CBC enc) must be refused at encryption "
